@@ -411,4 +411,150 @@ theorem hpop_wf (q : Q) (hw : WF q) (hpos : 0 < q.pq.length) :
       rw [hid]
       exact heap_root_min (lessId_swo q) q.pq q.pq.length hh k hk
 
+theorem hremove_eq (q : Q) (i : Nat) :
+    hremove q i = if q.pq.length - 1 ≠ i then pqPop (qfix (swap q i (q.pq.length - 1)) i (q.pq.length - 1)) else pqPop q := rfl
+
+/-- `heap.Remove(i)`. The element at slot `i` may already have changed its priority (SetIndexed changes the state
+    before it removes): the array need only be a heap for an order `lt0` that agrees with the current one
+    away from that element. -/
+theorem hremove_wf (q : Q) (i : Nat) (hc : Cons q) (hi : i < q.pq.length)
+    (lt0 : Nat → Nat → Bool) (hswo : SWO lt0) (hh : HeapN lt0 q.pq q.pq.length)
+    (hag : ∀ x y, x ≠ at_ q.pq i → y ≠ at_ q.pq i → lessId q x y = lt0 x y) :
+    WF (hremove q i).1 ∧ Same q (hremove q i).1 ∧ (hremove q i).2 = at_ q.pq i ∧
+      (∀ a, InPq (hremove q i).1.pq a ↔ InPq q.pq a ∧ a ≠ at_ q.pq i) ∧
+      (itemD (hremove q i).1 (at_ q.pq i)).heapIdx = -1 := by
+  have ne : ∀ k, k < q.pq.length → k ≠ i → at_ q.pq k ≠ at_ q.pq i := fun k hk hki e => hki (hc.inj k i hk hi e)
+  rw [hremove_eq]
+  generalize hndef : q.pq.length - 1 = n
+  have hn : n < q.pq.length := by omega
+  by_cases hni : n = i
+  · rw [if_neg (by simpa using hni)]
+    have hp := pqPop_spec hc (by omega)
+    have hid : (pqPop q).2 = at_ q.pq i := by rw [pqPop_id, hndef, hni]
+    refine ⟨⟨hp.1, hp.2.2.1 (fun k hk0 hkn => ?_)⟩, hp.2.1, hid, ?_, ?_⟩
+    · rw [hag _ _ (ne k (by omega) (by omega)) (ne _ (by omega) (by omega))]
+      exact hh k hk0 (by omega)
+    · intro a; rw [hp.2.2.2.1 a, hid]
+    · rw [← hid]; exact hp.2.2.2.2
+  · rw [if_pos hni]
+    have hin : i < n := by omega
+    have hc1 := cons_swap hc i n hi hn
+    have hs1 := same_swap hc i n hi hn
+    have hl1 : (swap q i n).pq.length = q.pq.length := swap_length q i n
+    have hf := qfix_spec (swap q i n) i n hc1 (by omega) hin
+    have hperm := permN_fixL (lessId (swap q i n)) (swap q i n).pq i n (by omega) hin
+    rw [← hf.2.2] at hperm
+    have hl2 : (qfix (swap q i n) i n).pq.length = q.pq.length := by rw [hperm.1, hl1]
+    have hheap : HeapN (lessId (swap q i n)) (qfix (swap q i n) i n).pq n := by
+      rw [hf.2.2]
+      apply fixL_heap (lessId_swo _) _ i n (by omega) hin
+      refine ⟨?_, ?_⟩
+      · intro k hk0 hkn hki hp
+        rw [swap_pq, at_swapL_other _ _ _ _ hi hn hki (by omega),
+          at_swapL_other _ _ _ _ hi hn hp (by omega), hs1.lessId,
+          hag _ _ (ne k (by omega) hki) (ne _ (by omega) hp)]
+        exact hh k hk0 (by omega)
+      · intro hi0 c hc0 hcn hpc
+        rw [swap_pq, at_swapL_other _ _ _ _ hi hn (by omega) (by omega),
+          at_swapL_other _ _ _ _ hi hn (by omega) (by omega), hs1.lessId,
+          hag _ _ (ne c (by omega) (by omega)) (ne _ (by omega) (by omega))]
+        have e1 := hh c hc0 (by omega)
+        rw [hpc] at e1
+        exact hswo.ntrans _ _ _ e1 (hh i hi0 hi)
+    have hlast : at_ (qfix (swap q i n) i n).pq n = at_ q.pq i := by
+      rw [hperm.2.2 n (Nat.le_refl _), swap_pq, at_swapL_j q.pq i n hi hn]
+    have hp := pqPop_spec hf.1 (by omega)
+    have hid : (pqPop (qfix (swap q i n) i n)).2 = at_ q.pq i := by
+      rw [pqPop_id, hl2, hndef]; exact hlast
+    refine ⟨⟨hp.1, hp.2.2.1 ?_⟩, (hs1.trans hf.2.1).trans hp.2.1, hid, ?_, ?_⟩
+    · rw [hl2, hndef]
+      exact heapN_congr (fun a b => hf.2.1.lessId a b) hheap
+    · intro a
+      rw [hp.2.2.2.1 a, hid]
+      have h1 : InPq (qfix (swap q i n) i n).pq a ↔ InPq q.pq a := by
+        constructor
+        · rintro ⟨k, hk, ek⟩
+          rw [hl2] at hk
+          by_cases hkn : k < n
+          · obtain ⟨k', hk', ek'⟩ := (hperm.2.1 a).mp ⟨k, hkn, ek⟩
+            exact (inPq_swapL i n a hi hn).mp ⟨k', by rw [swapL_length]; omega, by rw [← swap_pq]; exact ek'⟩
+          · have hkn' : k = n := by omega
+            rw [hkn', hlast] at ek
+            exact ⟨i, hi, ek⟩
+        · intro hin'
+          obtain ⟨k, hk, ek⟩ := (inPq_swapL i n a hi hn).mpr hin'
+          rw [swapL_length] at hk
+          by_cases hkn : k < n
+          · obtain ⟨k', hk', ek'⟩ := (hperm.2.1 a).mpr ⟨k, hkn, by rw [swap_pq]; exact ek⟩
+            exact ⟨k', by rw [hl2]; omega, ek'⟩
+          · have hkn' : k = n := by omega
+            refine ⟨n, by rw [hl2]; exact hn, ?_⟩
+            rw [hperm.2.2 n (Nat.le_refl _), swap_pq]
+            rw [hkn'] at ek; exact ek
+      rw [h1]
+    · rw [← hid]; exact hp.2.2.2.2
+
+/-! ### changing an item's fields (not its id, not its `heapIdx`) -/
+
+theorem cons_modify {q : Q} (hc : Cons q) (a : Nat) (f : Item → Item) (hid : ∀ x, (f x).id = x.id)
+    (hidx : ∀ x, (f x).heapIdx = x.heapIdx) : Cons (modify q a f) := by
+  have hit : ∀ b, (itemD (modify q a f) b).heapIdx = (itemD q b).heapIdx := by
+    intro b
+    by_cases h : b = a
+    · subst h
+      by_cases ht : tracked q b = true
+      · rw [itemD_modify_same _ _ _ hid ht, hidx]
+      · have hn : find q.items b = none := by
+          simp only [tracked] at ht; cases hf : find q.items b <;> simp_all
+        simp only [itemD, modify, find_upd_same hid, hn]; rfl
+    · rw [itemD_modify_other _ _ _ _ hid h]
+  refine ⟨hc.inj, ?_, ?_, ?_⟩
+  · show ((upd q.items a f).map (·.id)).Nodup
+    rw [upd_ids hid]; exact hc.keys
+  · intro i hi
+    rw [tracked_modify _ _ _ _ hid, hit]
+    exact hc.slot i hi
+  · intro b hb hnb
+    rw [tracked_modify _ _ _ _ hid] at hb
+    rw [hit]
+    exact hc.off b hb hnb
+
+theorem lessId_modify_other (q : Q) (a : Nat) (f : Item → Item) (hid : ∀ x, (f x).id = x.id) (x y : Nat)
+    (hx : x ≠ a) (hy : y ≠ a) : lessId (modify q a f) x y = lessId q x y := by
+  simp only [lessId, itemD_modify_other _ _ _ _ hid hx, itemD_modify_other _ _ _ _ hid hy]
+
+/-- a heap in which only the priority of the element at slot `i` changed satisfies `Fix`'s precondition -/
+theorem fixInv_of_change {lt lt' : Nat → Nat → Bool} (hswo : SWO lt) (l : List Nat) (i : Nat) (hinj : Inj l) (hi : i < l.length)
+    (hh : HeapN lt l l.length) (hag : ∀ x y, x ≠ at_ l i → y ≠ at_ l i → lt' x y = lt x y) : FixInv lt' l i l.length := by
+  have ne : ∀ k, k < l.length → k ≠ i → at_ l k ≠ at_ l i := fun k hk hki e => hki (hinj k i hk hi e)
+  refine ⟨?_, ?_⟩
+  · intro k hk0 hkn hki hp
+    rw [hag _ _ (ne k hkn hki) (ne _ (by omega) hp)]
+    exact hh k hk0 hkn
+  · intro hi0 c hc0 hcn hpc
+    rw [hag _ _ (ne c hcn (by omega)) (ne _ (by omega) (by omega))]
+    have e1 := hh c hc0 hcn
+    rw [hpc] at e1
+    exact hswo.ntrans _ _ _ e1 (hh i hi0 hi)
+
+/-- position of a queued id -/
+theorem slot_of_idx {q : Q} (hc : Cons q) (a : Nat) (ht : tracked q a = true) (hidx : 0 ≤ (itemD q a).heapIdx) :
+    (itemD q a).heapIdx.toNat < q.pq.length ∧ at_ q.pq (itemD q a).heapIdx.toNat = a := by
+  by_cases hin : InPq q.pq a
+  · obtain ⟨k, hk, e⟩ := hin
+    have := (hc.slot k hk).2
+    rw [e] at this
+    rw [this]; simp; exact ⟨hk, e⟩
+  · have := hc.off a ht hin
+    omega
+
+theorem idx_of_inPq {q : Q} (hc : Cons q) (a : Nat) (hin : InPq q.pq a) : tracked q a = true ∧ 0 ≤ (itemD q a).heapIdx := by
+  obtain ⟨k, hk, e⟩ := hin
+  have := hc.slot k hk
+  rw [e] at this
+  exact ⟨this.1, by rw [this.2]; omega⟩
+
+theorem not_inPq_of_neg {q : Q} (hc : Cons q) (a : Nat) (h : (itemD q a).heapIdx < 0) : ¬ InPq q.pq a := fun hin => by
+  have := (idx_of_inPq hc a hin).2; omega
+
 end ZoektModel.C30
